@@ -67,7 +67,7 @@ theorem c10_step (r : Rep) (op : RepOp) (h : setsRev op = false) :
   | setCkpt s => unfold Rep.step rwWrites; simp only [rwWrites]; split <;> simp
   | setRb b => unfold Rep.step rwWrites; simp only [rwWrites]; split <;> simp
   | stash => unfold Rep.step rwWrites; simp only [rwWrites]; split <;> simp
-  | rbBegin n st => unfold Rep.step rwWrites; simp only [rwWrites]; split <;> (try split) <;> (try split) <;> simp
+  | rbBegin n st => unfold Rep.step rwWrites; simp only [rwWrites]; split <;> (try split) <;> (try split) <;> (try split) <;> simp
   | rbReload => simp [setsRev] at h
   | lunmap => unfold Rep.step rwWrites; simp only [rwWrites]; split <;> simp
   | rbPromote => simp [setsRev] at h
